@@ -52,9 +52,31 @@ class Connection:
         return self._process_not_unique(previous)
     else:
       self._gfa = gfa
-      self._initialize_references()
+      try:
+        self._initialize_references()
+      except Exception:
+        # the line cannot be connected: the references created so far are
+        # removed, so that the Gfa is left as it was
+        self._undo_initialize_references()
+        raise
       self._gfa._register_line(self)
       return None
+
+  def _undo_initialize_references(self):
+    placeholders = []
+    for undo in [lambda: placeholders.extend(self._referenced_virtual_lines()),
+                 self._remove_field_backreferences,
+                 self._remove_field_references,
+                 self._remove_nonfield_backreferences]:
+      try:
+        undo()
+      except Exception:
+        pass
+    self._refs = {}
+    self._gfa = None
+    for line in placeholders:
+      if line.is_connected() and not line.all_references:
+        line.disconnect()
 
   @property
   def all_references(self):
